@@ -799,3 +799,39 @@ def rf101(run):
                           'through register moves: `addo r, a, b; mov r2, 0; bo L` loses the overflow flag in generated code' % nm,
                           line=reg['stmts'][0]['l'] if reg['stmts'] else f.line)
     return n
+
+
+# ---------------------------------------------------------------------------------------------
+# RF104: branch patch slots of a generated basic block are paired with successors one to one
+# ---------------------------------------------------------------------------------------------
+
+def rf104(run):
+    from rf_proto import dominating_conditions
+    rule = 'RF104'
+    run.rule(rule, 'x86-64 lazy basic-block generation, target_setup_succ_bb_version_data: label references of the block and successor '
+                   'versions are paired by position, which is meaningful only when there is exactly one reference per successor.  '
+                   'The pairing loop runs only under equality of the two counts (SWITCH, the two jumps of FP BNE and LADDR add '
+                   'references of their own; with unequal counts the branches stay routed through the block thunks)')
+    tu = run.tu('gen')
+    f = tu.func('target_setup_succ_bb_version_data')
+    run.functions_analysed.add(('gen', f.name))
+    cfg = f.cfg
+    stores = [x for x in f.walk() if x['k'] == 'BinaryOperator' and x['op'] == '=' and F.src(F.strip(x['c'][0])).endswith('->branch_ref')]
+    if not stores:
+        raise F.AnalysisBroken('target_setup_succ_bb_version_data: the pairing store was not found')
+    n = 0
+    for x in stores:
+        conds = dominating_conditions(cfg, cfg.block_of(x), selective=True)
+        ok = False
+        for c, t in conds:
+            cc = c.replace(' ', '')
+            if ('label_refs' in cc and 'succ_bb_versions' in cc) or ('nrefs' in cc and 'nsuccs' in cc):
+                if ('!=' in cc and not t) or ('==' in cc and t):
+                    ok = True
+        n += 1
+        run.ob(rule, (x['l'],), ok, {'site': '%s:%d' % (f.relfile(), x['l']), 'conditions': [c for c, t in conds][:4]})
+        if not ok:
+            run.violation(rule, f, 'positional pairing with unequal counts', '`%s` pairs label references with successor versions by position '
+                          'without the two counts being equal: a LADDR or the extra jump of an FP branch shifts the positions, and when a '
+                          'successor is generated later the wrong jump of the block is patched to it' % F.src(x)[:60], line=x['l'])
+    return n
